@@ -58,6 +58,9 @@ type Config struct {
 	Blinded        bool     // proposer runner produces blinded blocks (options.BuilderProposals)
 	Direct         bool     // call the runner's Process* directly instead of Validator.ProcessMessage
 	SlashableRoots [][]byte // attestation-data roots the key manager reports as slashable
+	// ForkEpochs: the beacon chain's fork version is bumped at each of these epochs, so the signing domain
+	// served by the beacon node (and used by the message factory and the oracles) depends on the epoch.
+	ForkEpochs []uint64
 }
 
 type Sim struct {
@@ -84,7 +87,7 @@ func New(cfg Config) *Sim {
 	s.Quorum = int(s.KS.Threshold)
 	s.innerKM = testingutils.NewTestingKeyManagerWithSlashableRoots(cfg.SlashableRoots)
 	s.KM = &KeyManager{KeyManager: s.innerKM, op: &s.Op}
-	s.BN = &BeaconNode{TestingBeaconNode: testingutils.NewTestingBeaconNode(), op: &s.Op}
+	s.BN = &BeaconNode{TestingBeaconNode: testingutils.NewTestingBeaconNode(), op: &s.Op, forks: cfg.ForkEpochs, blinded: cfg.Blinded}
 
 	ssvShare := &ssvtypes.SSVShare{
 		Share:    *fx.Share(s.KS, cfg.Self),
